@@ -4,6 +4,7 @@ import os, sys, json, time, hashlib, multiprocessing, traceback, collections
 
 ROOT = os.path.dirname(os.path.dirname(os.path.abspath(__file__)))
 FINDINGS_FILE = os.path.join(ROOT, 'known_findings.json')
+OUT_ROOT = os.environ.get('VERIF_OUT_ROOT', ROOT)   # evidence/ and replays/ (redirected by bin/seedtest)
 NPROC = int(os.environ.get('VERIF_NPROC', '16'))
 
 
@@ -111,7 +112,7 @@ class Check:
             seen_classes.add(cls)
             nviol += 1
             if nviol > 25: break
-            d = os.path.join(ROOT, 'replays', self.pid)
+            d = os.path.join(OUT_ROOT, 'replays', self.pid)
             os.makedirs(d, exist_ok=True)
             h = hashlib.sha1((cls + text).encode('latin-1', 'replace')).hexdigest()[:10]
             path = os.path.join(d, '%s.%s' % (h, ext))
@@ -139,7 +140,7 @@ class Check:
             c['traces_validated_against_impl'] = int(cov.get('traces_validated', cov.get('executions', 0)))
         c.update(self.extra)
         ev['coverage'] = c
-        d = os.path.join(ROOT, 'evidence')
+        d = os.path.join(OUT_ROOT, 'evidence')
         os.makedirs(d, exist_ok=True)
         tmp = os.path.join(d, self.pid + '.json.tmp')
         with open(tmp, 'w') as f:
@@ -153,7 +154,11 @@ _fn = None
 
 def _call(task):
     try:
-        return _fn(task)
+        t = time.time()
+        r = _fn(task)
+        if os.environ.get('VERIF_DEBUG'):
+            print('  [task %.1fs pid %d] %r' % (time.time() - t, os.getpid(), task if len(repr(task)) < 150 else repr(task)[:150]), file=sys.stderr, flush=True)
+        return r
     except Exception:
         return {'cov': {'task_errors': 1}, 'violations': [], 'samples': [], 'error': traceback.format_exc()}
 
@@ -182,5 +187,10 @@ def pmap(fn, tasks, init=None, nproc=None):
             yield r
 
 
+class USet(set):
+    """set with a list-like append, so that per-task results are de-duplicated before they are sent back"""
+    append = set.add
+
+
 def new_result():
-    return {'cov': collections.Counter(), 'samples': [], 'violations': [], 'distinct': [], 'states': []}
+    return {'cov': collections.Counter(), 'samples': [], 'violations': [], 'distinct': USet(), 'states': USet()}
